@@ -14,6 +14,7 @@
 #include "momo/details/HashBucketOpen8.h"
 #include "momo/details/HashBucketOne.h"
 #include "common/verif_common.h"
+#include "common/verif_ptrbits.h"
 
 #include <algorithm>
 #include <unordered_set>
@@ -23,6 +24,15 @@ using namespace vf;
 
 #ifndef C12_PART
 #define C12_PART 1
+#endif
+// C12_PART 3 / 4: LimP4 over a memory manager with 48 / 32 useful pointer bits (built with -DMOMO_MEM_MANAGER_PTR_USEFUL_BIT_COUNT=48 / 32,
+// see common/verif_ptrbits.h, observation O3): 6 / 8 metadata bytes per bucket, so hash-probe bytes exist for the first three / all four items
+#if C12_PART == 3
+typedef FaultMMBits<48> TableMM;
+#elif C12_PART == 4
+typedef FaultMMBits<32> TableMM;
+#else
+typedef momo::MemManagerDefault TableMM;
 #endif
 
 struct SlowKey {
@@ -67,7 +77,7 @@ struct TraitsT : public momo::HashTraits<SlowKey, HB>
 struct SetNoCheck : public momo::HashSetSettings { static const momo::ExtraCheckMode extraCheckMode = momo::ExtraCheckMode::nothing; };
 
 template<typename Traits>
-using SetT = momo::HashSet<SlowKey, Traits, momo::MemManagerDefault, momo::HashSetItemTraits<SlowKey, momo::MemManagerDefault>, SetNoCheck>;
+using SetT = momo::HashSet<SlowKey, Traits, TableMM, momo::HashSetItemTraits<SlowKey, TableMM>, SetNoCheck>;
 
 // ---------- reading the stored bytes of the real buckets ----------
 
@@ -154,6 +164,15 @@ static void tableRun(Ctx& c, Rng& rng, Suite& s, const char* name, const char* k
 	typedef SetT<TraitsT<HBtwin, HB, true>> SetB;
 	static_assert(!SetA::HashTraits::isFastNothrowHashable && SetB::HashTraits::isFastNothrowHashable, "twin configuration");
 	if (SetA::bucketMaxItemCount == 1 && startLog == 0) startLog = 1;	// one bucket of one element has capacity 0: not a legal start size
+#if C12_PART == 3 || C12_PART == 4
+	{
+		static const size_t bits = TableMM::ptrUsefulBitCount;
+		if (SetA::Bucket::PtrState::bitCount != bits || SetB::Bucket::PtrState::bitCount != bits || SetA::Bucket::hashCount != 4 + (8 - bits / 8) || SetB::Bucket::hashCount != 4)
+			c.fail("harness: C12 table %s: pointer state of %zu / %zu bits and %zu / %zu metadata bytes in a build for %zu-bit pointers", name,
+				(size_t)SetA::Bucket::PtrState::bitCount, (size_t)SetB::Bucket::PtrState::bitCount, (size_t)SetA::Bucket::hashCount, (size_t)SetB::Bucket::hashCount, bits);
+		c.stats.count(fmt("tbl.p4_hash_count_%zu", (size_t)SetA::Bucket::hashCount));
+	}
+#endif
 	SetA a(TraitsT<HB, HB, false>(startLog, shift)); SetB b(TraitsT<HBtwin, HB, true>(startLog, shift));
 	std::vector<uint64_t> keys; std::unordered_set<uint64_t> present;
 	KeyGen gen(rng, family);
@@ -317,11 +336,24 @@ int main(int argc, char** argv)
 	unsigned maxL = c.thorough ? 17 : 13;
 	// the bucket families are split over two executables (C12_PART) so that they compile in parallel
 #if C12_PART == 1
+	// observation O3 (no property is violated: such a manager simply gets the 64-bit layout): a memory manager's own
+	// `static const size_t ptrUsefulBitCount` is ignored - MemManager.h 376-380 `PtrUsefulBitCount<MemManager, decltype(MemManager::ptrUsefulBitCount)>`
+	// never matches (decltype is `const size_t`, the default argument of the primary template is `size_t`) - so only the global macro
+	// MOMO_MEM_MANAGER_PTR_USEFUL_BIT_COUNT selects the 48- / 32-bit BucketLimP4PtrState (parts 3 / 4 are built with it). Recorded as a counter.
+	c.stats.count(ptrBitsDeclaredHonoured<FaultMMBits<48>>() && ptrBitsDeclaredHonoured<FaultMMBits<32>>()
+		? "note.O3_per_manager_ptrUsefulBitCount_honoured" : "note.O3_per_manager_ptrUsefulBitCount_ignored");
 	family<momo::HashBucketLimP4<4>, momo::HashBucketLimP4<4>>(c, rng, s, "LimP4<4>", "p4", maxL);
 	family<momo::HashBucketLimP4<3>, momo::HashBucketLimP4<3>>(c, rng, s, "LimP4<3>", "p4", maxL - 1);
 	family<momo::HashBucketLimP4<2>, momo::HashBucketLimP4<2>>(c, rng, s, "LimP4<2>", "p4", maxL - 1);
 	family<momo::HashBucketLimP4<1>, momo::HashBucketLimP4<1>>(c, rng, s, "LimP4<1>", "p4", maxL - 1);
 	family<momo::HashBucketOne<1>, momo::HashBucketOne<1>>(c, rng, s, "One<1>", "one", maxL - 1);
+#elif C12_PART == 3 || C12_PART == 4
+	family<momo::HashBucketLimP4<4>, momo::HashBucketLimP4<4>>(c, rng, s, "LimP4<4>", "p4", maxL - 1);
+	family<momo::HashBucketLimP4<3>, momo::HashBucketLimP4<3>>(c, rng, s, "LimP4<3>", "p4", maxL - 2);
+	family<momo::HashBucketLimP4<2>, momo::HashBucketLimP4<2>>(c, rng, s, "LimP4<2>", "p4", maxL - 2);
+	family<momo::HashBucketLimP4<1>, momo::HashBucketLimP4<1>>(c, rng, s, "LimP4<1>", "p4", maxL - 2);
+	// ledger of the manager: everything given back (C03 piggyback)
+	if (!mm().live.empty() || mm().badDealloc) c.fail("C03 leak: C12 table part %d: %zu blocks outstanding, %zu bad deallocations", (int)C12_PART, mm().live.size(), mm().badDealloc);
 #else
 	family<momo::HashBucketOpen2N2<3>, momo::HashBucketOpen2N2<3>>(c, rng, s, "Open2N2<3>", "o2", maxL);
 	family<momo::HashBucketOpen2N2<2>, momo::HashBucketOpen2N2<2>>(c, rng, s, "Open2N2<2>", "o2", maxL - 1);
